@@ -145,7 +145,11 @@ CLAIMS = {
          "unsubscribe() returned); an unsubscribing thread against emitting threads on SubjectThreads under every schedule with <= 3 "
          "context switches (lock-level model Ileave.v against real threads parked before every mutex), judged by 'no call of the subscriber "
          "after its unsubscribe() returned'; likewise an unsubscribing thread against emitting threads on the two-input _threads operators, "
-         "merge_all_threads and finalize_threads. share()/ref_count is decided under C11.", "DESIGN.md section 5 C02"),
+         "merge_all_threads and finalize_threads. share()/ref_count is decided under C11. Tie by TRANSLATION as well (Props/C02src.v): Subscriber / SubscriberThreads - the slot that stands "
+         "between every hot source and the observer it was given, and that subscribing to a Subject returns - parsed from /repo/src on every run "
+         "(T5) and evaluated in Coq is the two-state slot machine (C02_source_subscriber); for every history of calls through any clone, "
+         "once unsubscribe() has returned nothing is delivered (C02_source_silent_after_unsubscribe).",
+         "DESIGN.md section 5 C02"),
  "C17": ("Theorems: C17_closed_sound (every scheduler-using operator / time source, every reachable state: is_closed() = true implies no "
          "subscriber call under any continuation); for the subscription algebra under EVERY history of append / unsubscribe / is_closed / leaf "
          "termination: C17_late_additions (a leaf appended to an unsubscribed composite is torn down at once), C17_algebra_closed_sound "
